@@ -58,7 +58,10 @@ Den(r) == CASE r.k = "val" -> r.n
             [] r.k = "pow" -> SUBSET Den(r.c[1])
             [] r.k = "prod" -> Den(r.c[1]) \X Den(r.c[2])
 
-Families == <<SetsE, SetsT, SetsS, SetsTS, SetsSS, Vals, Tups, TupsTS>>
+\* lazy sets with more than a hundred elements (every query walks them again and again)
+Upto(n) == SetOf([i \in 1..n |-> Val(i)], TyS)
+SetsBig == {R("pow", 0, <<Upto(7)>>, TySS), R("prod", 0, <<Upto(11), Upto(10)>>, TyST)}
+Families == <<SetsE, SetsT, SetsS, SetsTS, SetsSS, Vals, Tups, TupsTS, SetsBig>>
 FamilyOf(ty) == CASE ty = TyS -> SetsE [] ty = TyST -> SetsT [] ty = TySS -> SetsS [] ty = TySTS -> SetsTS
                   [] ty = TySSS -> SetsSS [] ty = TyE -> Vals [] ty = TyT -> Tups [] ty = TyTS -> TupsTS
 
@@ -79,7 +82,8 @@ Init == \/ /\ mode = "pair" /\ stage = 1 /\ \E i \in 1..Len(Families) : a \in Fa
                                   /\ hist = <<[op |-> "Init", i |-> 0, j |-> 0, r |-> r]>>
 
 Next ==
-  \/ /\ mode = "pair" /\ stage = 1 /\ stage' = 2 /\ b' \in FamilyOf(a.ty) /\ UNCHANGED <<mode, a, store, hist>>
+  \/ /\ mode = "pair" /\ stage = 1 /\ stage' = 2 /\ UNCHANGED <<mode, a, store, hist>>
+     /\ IF a \in SetsBig THEN b' \in {a} \cup {x \in FamilyOf(a.ty) : x.k \in {"pow", "prod"}} \cup {SetOf(<<>>, a.ty)} ELSE b' \in FamilyOf(a.ty)
   \/ /\ mode = "hist" /\ Len(hist) <= MaxHist /\ UNCHANGED <<mode, stage, a, b>>
      /\ \/ \E i, j \in Handles : i # j /\ store' = [store EXCEPT ![j] = store[i]]
                                        /\ hist' = Append(hist, [op |-> "Copy", i |-> i, j |-> j, r |-> Val(1)])
